@@ -103,8 +103,9 @@ type Sched struct {
 	Hot       []bool // site-indexed: sites where AtYield is consulted
 	SiteHits  map[int]int
 
-	LastSite   int // site of the most recent yield of the baton holder
-	MaxYields  int // stop the run once this many yield points were passed (0 = no limit)
+	NoPre      []bool // site-indexed: yields that are counted but never pre-empt (vendored dependencies)
+	LastSite   int    // site of the most recent yield of the baton holder
+	MaxYields  int    // stop the run once this many yield points were passed (0 = no limit)
 	overBudget bool
 
 	// hooks (run on the scheduler goroutine; must only touch harness state)
@@ -206,8 +207,13 @@ func Yield(site int) {
 	}
 	if s.cur == t {
 		s.Yields++
-		s.turnY++
 		s.LastSite = site
+		if site > 0 && site < len(s.NoPre) && s.NoPre[site] && !(s.MaxYields > 0 && s.Yields > s.MaxYields) {
+			// dependency code: counted for the work budget, never a pre-emption point
+			s.mu.Unlock()
+			return
+		}
+		s.turnY++
 		pre := false
 		if s.MaxYields > 0 && s.Yields > s.MaxYields {
 			s.overBudget = true
